@@ -4585,6 +4585,17 @@ CS104_Slave_stop(CS104_Slave self)
                         }
 #endif /* (CONFIG_USE_THREADS == 1) */
 
+                        /* release the slot: otherwise the next start finds it in use and not running, "closes" it
+                         * a second time (openConnections becomes negative) */
+#if (CONFIG_USE_SEMAPHORES == 1)
+                        Semaphore_wait(connection->stateLock);
+#endif
+                        connection->isUsed = false;
+
+#if (CONFIG_USE_SEMAPHORES == 1)
+                        Semaphore_post(connection->stateLock);
+#endif
+
                         self->openConnections--;
                     }
 
